@@ -11,6 +11,7 @@ CFG = {
              "WOFF emptiness at each nesting level; ill-typed file values (family class of 1/3 numbers, bit 256, ppem -1 and "
              "2^32, panose of 9/11, width class 0/10, unknown style names); plus random combinations (half conforming). "
              "Values that only use attributes of format 2 also go through Font::load of a format-2 tree, list-only values through a format-1 tree carrying them as robofab hint data (the two upconversion paths that call validate). "
+             "Glue stream: the three routes of font info into a loaded Font x the other optional files of a UFO x nine load entry points / data requests, with the oracle that every returned font validates. "
              "non-trivial = at least one attribute present; distinct by input tokens"),
     "exhaustive": {"quick": True, "thorough": True},
     "exhaustive_note": "the per-rule boundary sweeps listed in `rule` are enumerated completely in both tiers; the random combinations are not exhaustive",
